@@ -19,7 +19,7 @@ def make_scheduler(cfg):
         from syne_tune.optimizer.schedulers.synchronous import SynchronousHyperbandScheduler
         space["epochs"] = rs["max_t"]
         lv = rung_levels(**rs) + [rs["max_t"]]
-        br = [[(len(lv) - i, l) for i, l in enumerate(lv)]]
+        br = [[(len(lv) - i, l) for i, l in enumerate(lv)][b:] for b in range(cfg.get("nbr", 1))]
         s = SynchronousHyperbandScheduler(space, br, metric="m", mode=cfg["mode"], resource_attr="epoch", max_resource_attr="epochs",
                                           searcher="bayesopt", searcher_data=cfg["data"], random_seed=cfg["seed"], search_options=so)
         return s
@@ -238,6 +238,13 @@ def configs(tier, seed):
         for mode in ("min", "max"):
             out.append(dict(sched="shb", data=data, mode=mode, rs="g1rf2m4", T=4, W=2, F=1, seed=seed, perms={"1": (0, 1, 2, 3)},
                             scratch=(mode == "max"), max_states=1500 if tier == "quick" else 8000))
+    # synchronous Hyperband with several brackets: trials of a later bracket report levels below their first rung level, which
+    # the 'all' policy selects like any other (policy 'rungs' is left to the single-bracket worlds: which levels count as rung
+    # levels for a trial of a later bracket is not fixed by the property)
+    for mode in ("min", "max"):
+        for W in (1, 2):
+            out.append(dict(sched="shb", data="all", mode=mode, rs="g1rf2m4", T=6, W=W, F=0, seed=seed, perms={"1": (3, 0, 5, 1, 4, 2)},
+                            nbr=2 + (W == 1 and mode == "min"), scratch=(mode == "max"), max_states=1500 if tier == "quick" else 8000))
     return out
 
 
